@@ -175,6 +175,10 @@ func PanicMsg(f func()) (msg string) {
 	return ""
 }
 
+// RandExtremes restricts the engine's exploration of math/rand.Intn(n) to the outcomes 0 and n-1
+// (a stated cut; natively the real generator runs).
+func RandExtremes(on bool) {}
+
 // NondetMaps asks the engine to explore every iteration order of maps (≤5 entries).
 func NondetMaps(on bool) {}
 
